@@ -66,6 +66,7 @@ func (c *StringScanner) isColumn(charAt rune) bool {
 func (c *StringScanner) Read() rune {
 	// Skip if we are at the end
 	if (c.position + 1) > len(c.content) {
+		c.verifHook(VerifOpRead)
 		return -1
 	}
 
@@ -73,6 +74,7 @@ func (c *StringScanner) Read() rune {
 	c.position++
 
 	if c.position >= len(c.content) {
+		c.verifHook(VerifOpRead)
 		return -1
 	}
 
@@ -89,6 +91,7 @@ func (c *StringScanner) Read() rune {
 		c.column++
 	}
 
+	c.verifHook(VerifOpRead)
 	return charAt
 }
 
@@ -144,6 +147,7 @@ func (c *StringScanner) PeekColumn() int {
 func (c *StringScanner) Unread() {
 	// Skip if we are at the beginning
 	if c.position < -1 {
+		c.verifHook(VerifOpUnread)
 		return
 	}
 
@@ -153,6 +157,7 @@ func (c *StringScanner) Unread() {
 	// Update line and columns (optimization)
 	if c.column > 0 {
 		c.column--
+		c.verifHook(VerifOpUnread)
 		return
 	}
 
@@ -177,6 +182,7 @@ func (c *StringScanner) Unread() {
 			c.column++
 		}
 	}
+	c.verifHook(VerifOpUnread)
 }
 
 // UnreadMany puts the specified number of characters to the top of the stream.
@@ -194,4 +200,5 @@ func (c *StringScanner) Reset() {
 	c.position = -1
 	c.line = 1
 	c.column = 0
+	c.verifHook(VerifOpReset)
 }
